@@ -65,6 +65,14 @@ Fixpoint c4_ex_ochain (d : nat) (i : N) : list (N * c4_onode) :=
 Example c4_ex_outlines_depth : let st := c4_outlines (c4_ex_ochain 59 1) 1 in
   c4os_made st = 51 /\ c4os_cut st = 1 /\ c4os_warn st = 0 /\ c4os_maxdepth st = 50%nat.
 Proof. vm_compute. repeat split; reflexivity. Qed.
+(* k items whose /First all name the same chain of k children: k + k*k helpers (the quadratic case of outlines_made), all
+   but the first k + k with a warning *)
+Definition c4_ex_oshared (k : nat) : list (N * c4_onode) :=
+  map (fun i => (N.of_nat i, mkC4onode (N.of_nat k + 1) (if Nat.eqb i k then 0 else N.of_nat i + 1))) (seq 1 k) ++
+  map (fun j => (N.of_nat (k + j), mkC4onode 0 (if Nat.eqb j k then 0 else N.of_nat (k + j) + 1))) (seq 1 k).
+Example c4_ex_outlines_quadratic : let st := c4_outlines (c4_ex_oshared 12) 1 in
+  c4os_made st = 12 + 12 * 12 /\ c4os_warn st = 11 * 12 /\ length (c4os_exp st) = 24%nat.
+Proof. vm_compute. repeat split; reflexivity. Qed.
 Example c4_ex_outlines_next_loop : c4os_warn (c4_outlines [(1, mkC4onode 0 2); (2, mkC4onode 0 3); (3, mkC4onode 0 2)] 1) = 1.
 Proof. vm_compute. reflexivity. Qed.
 
